@@ -316,6 +316,35 @@ def run(ctx):
             continue
         checks.append(('signed-address-only:' + mode, lib_verify(t), 'valid' if mode.startswith('right') else 'invalid', raw_of(t), po, info))
 
+    # --- a multisig input created from its ADDRESS only (script hash; the keys are not known to the transaction): whatever keys are handed
+    # to sign(), a transaction the library calls valid must be valid for the output that address stands for
+    import hashlib as _hl
+    from bitcoinlib.keys import Address as _Address
+    for trial in range(12 if T else 4):
+        n_ = rng.choice([2, 3]); m_n = rng.randint(1, n_)
+        ks_ = [_Key(rng.randrange(2 ** 200, 2 ** 250)) for _ in range(n_)]
+        rs_ = txgen.ms_script(m_n, [k_.public_byte for k_ in ks_])
+        kind_ = rng.choice(['p2sh_ms', 'p2wsh_ms'])
+        if kind_ == 'p2sh_ms':
+            addr_, spk_, wt_ = _Address(hashed_data=txgen._h160(rs_), script_type='p2sh', encoding='base58').address, b'\xa9\x14' + txgen._h160(rs_) + b'\x87', 'legacy'
+        else:
+            addr_, spk_, wt_ = _Address(hashed_data=_hl.sha256(rs_).digest(), script_type='p2wsh', encoding='bech32').address, b'\x00\x20' + _hl.sha256(rs_).digest(), 'segwit'
+        val_ = rng.choice([5000, 123456])
+        t = Transaction(network='bitcoin', witness_type='segwit')
+        t.add_input(txgen.rbytes(rng, 32), rng.randrange(3), address=addr_, script_type='p2sh_multisig', value=val_, witness_type=wt_)
+        t.add_output(1000, lock_script=b'\x00\x14' + txgen.rbytes(rng, 20))
+        mode = rng.choice(['foreign', 'foreign', 'one-own', 'all-own'])
+        signers = {'foreign': [_Key(rng.randrange(2 ** 200, 2 ** 250))], 'one-own': [ks_[0]], 'all-own': list(ks_)}[mode]
+        ctx.count('address-only-multisig:' + mode)
+        info = {'kinds': [kind_], 'm_of_n': [(m_n, n_)], 'schedule': 'address-only multisig input, keys handed to sign(): ' + mode}
+        try:
+            t.sign(signers, fail_on_unknown_key=False)
+        except Exception:
+            ctx.count('address-only-multisig:refused')
+            continue
+        # (no completeness demand: the script cannot be rebuilt from an address and some keys; but nothing invalid may be called valid)
+        checks.append(('signed-address-only-multisig:' + mode, lib_verify(t), 'any', raw_of(t), '%s:%d' % (spk_.hex(), val_), info))
+
     # --- independent verdicts ------------------------------------------------------------------------------------
     idx = [k for k, c in enumerate(checks) if c[3] is not None and c[4] is not None]
     verdicts = lean_verdict([(checks[k][3], checks[k][4]) for k in idx])
